@@ -43,3 +43,43 @@ Theorem C04_flag_rule : forall p cs, sum_flag_ok p cs = true ->
   (0 < p -> Forall (fun c => 0 <= c) cs) /\ (p < 0 -> ~ Forall (fun c => 0 < c) cs).
 Proof. exact sum_flag_ok_spec. Qed.
 Print Assumptions C04_flag_rule.
+
+(* ---------- the flag rule is a theorem where the development proves the closure property it encodes: the regularity flag of a
+   1-sum / 2-sum / series-parallel / pivot node is positive exactly when the flags of its children are, because regularity of
+   the node's matrix is equivalent to regularity of the children's matrices (OneSum.v, RegClosure.v, RegPivot.v); for
+   Delta-, Y- and 3-sum nodes the rule is the classical theorem of Seymour, which is not formalised ---------- *)
+From Cmr Require OneSum RegClosure RegPivot MatModel RelModel.
+Theorem C04_regularity_of_a_one_sum : forall m1 n1 A m2 n2 B, wf_mat m1 n1 A = true -> wf_mat m2 n2 B = true ->
+  regular_bf (m1 + m2) (n1 + n2) (MatModel.block_diag2 m1 n1 A m2 n2 B) = regular_bf m1 n1 A && regular_bf m2 n2 B.
+Proof. exact OneSum.regular_bf_onesum. Qed.
+Print Assumptions C04_regularity_of_a_one_sum.
+
+Theorem C04_total_unimodularity_of_a_one_sum : forall m1 n1 A m2 n2 B, wf_mat m1 n1 A = true -> wf_mat m2 n2 B = true ->
+  tu_bf (m1 + m2) (n1 + n2) (MatModel.block_diag2 m1 n1 A m2 n2 B) = tu_bf m1 n1 A && tu_bf m2 n2 B.
+Proof. exact OneSum.tu_bf_onesum. Qed.
+Print Assumptions C04_total_unimodularity_of_a_one_sum.
+
+Theorem C04_regularity_of_a_two_sum : forall m1 n1 M1 m2 n2 M2 r1 c2 M, wf_mat m1 n1 M1 = true -> wf_mat m2 n2 M2 = true ->
+  twosum 2 m1 n1 M1 m2 n2 M2 (Some r1) None None (Some c2) = KOk M -> is_binary M1 = true -> is_binary M2 = true ->
+  (exists j, (j < n1)%nat /\ get M1 r1 j <> 0) -> (exists i, (i < m2)%nat /\ get M2 i c2 <> 0) ->
+  (regular_bf (m1 - 1 + m2) (n1 + (n2 - 1)) M = true <-> regular_bf m1 n1 M1 = true /\ regular_bf m2 n2 M2 = true).
+Proof.
+  intros m1 n1 M1 m2 n2 M2 r1 c2 M W1 W2 HS B1 B2 E1 E2. split.
+  - exact (RegClosure.regular_bf_twosum_row_col_conv m1 n1 M1 m2 n2 M2 r1 c2 M W1 W2 HS B1 B2 E1 E2).
+  - intros [R1 R2]. exact (RegClosure.regular_bf_twosum_row_col m1 n1 M1 m2 n2 M2 r1 c2 M W1 W2 HS R1 R2).
+Qed.
+Print Assumptions C04_regularity_of_a_two_sum.
+
+Theorem C04_regularity_of_a_series_parallel_step : forall m' n' M' (isr : bool) k, wf_mat m' n' M' = true -> is_binary M' = true ->
+  (if isr then Nat.ltb k m' else Nat.ltb k n') = true -> RelModel.line_reducible false m' n' M' isr k = true ->
+  regular_bf m' n' M' =
+  (if isr then regular_bf (m' - 1) n' (submat M' (RelModel.keep_line m' k) (iota 0 n'))
+   else regular_bf m' (n' - 1) (submat M' (iota 0 m') (RelModel.keep_line n' k))).
+Proof. exact RegClosure.regular_bf_add_line. Qed.
+Print Assumptions C04_regularity_of_a_series_parallel_step.
+
+Theorem C04_regularity_of_a_pivot : forall m n M r c,
+  wf_mat m n M = true -> is_binary M = true -> Nat.ltb r m = true -> Nat.ltb c n = true -> get M r c = 1 ->
+  regular_bf m n (reduce 2 (pivot_raw m n M r c)) = regular_bf m n M.
+Proof. exact RegPivot.regular_bf_bpivot_std. Qed.
+Print Assumptions C04_regularity_of_a_pivot.
